@@ -6,6 +6,7 @@ import numpy as np
 from runner import Case
 from shapes import shapes, prod, fmt, fmt_lists, all_idx, rand_shape
 from props import c04_bc
+from props import c04_gen
 
 ID = 'C04'
 LEVEL = 'proof'
@@ -15,8 +16,11 @@ RULE = ('exhaustive small scope per routine: source shapes rank 1..3 / extents 1
         '[-2N,2N] flat, every axis incl. negative, distinct axis tuples with mixed signs, repeated axes; pad widths 0..2 per side; take '
         'index lists with negative and repeated entries; concatenate / stack family over every axis and compatible second shape; '
         'split sections and cut lists (interior / repeated / beyond the extent / descending, 1..3 cut points); sliding_window windows 1..extent (scalar, lists over axis None and over every axis list of length 1..2 incl. negative and repeated axes for rank <= 3); diagonal every axis pair in both spellings x every offset in [-3,3] ([-5,5] thorough) for rank <= 3 (rank 4: sampled offsets in the quick tier, all in the thorough tier); tril / triu / tri / eye offsets in the same range; '
-        'where / compress over 0/1 patterns; resize targets 1..4; expand spacing 0..2; arange / linspace over integer and quarter grids. '
-        'Every request is answered by the C++ view (IMPL), by the Lean model where one exists (all but arange/linspace/full/zeros/ones), '
+        'where / compress over 0/1 patterns, where also over 500 triples of differently shaped operands (compatible and incompatible); resize targets 1..4; '
+        'expand spacing 0..2 (axis lists incl. repeated axes); arange / linspace over integer and quarter grids, long ranges probed at selected positions, '
+        'arange beyond the binary32-exact range (count only), the compile-time-constant argument forms of tri / eye / identity / full / zeros / ones(_like) / '
+        'arange / linspace over a fixed table (non-square (N,M), mixed constant / run-time arguments). '
+        'Every request is answered by the C++ view (IMPL), by the Lean model (MODEL) '
         'and by NumPy or the documented definition (ORACLE). non-trivial = the generator marked the result as different from the source')
 EXHAUSTIVE = {'quick': True, 'thorough': True}
 ANCHORS = {
@@ -30,39 +34,44 @@ ANCHORS = {
     'NmVerif.Index.splitViews': 'view::detail::split_args, view::split',
     'NmVerif.Index.shapeSlidingWindow / indexSlidingWindow / slidingWindowView': 'index::shape_sliding_window, index::sliding_window, view::sliding_window',
     'NmVerif.Index.shapeDiagonal / indexDiagonal / diagonalView, diagflatView, trilView, triuView, triGen, eyeGen, identityGen': 'index::shape_diagonal, index::diagonal, index::diagflat, index::tril, index::triu, index::tri, index::eye; view::diagonal, diagflat, tril, triu, tri, eye, identity',
-    'NmVerif.Index.whereView / bcastIdx': 'view::where (broadcast_arrays + select)',
+    'NmVerif.Index.whereView / WhereView.select (over NmVerif.broadcastArraysViews)': 'view::where (view::broadcast_arrays + where_t::operator())',
     'NmVerif.Index.compressView / nonzeroIdx': 'index::shape_compress, index::compress, view::compress',
     'NmVerif.Index.shapeResize / indexResize / resizeView': 'index::shape_resize, index::resize, view::resize',
     'NmVerif.Index.shapeExpand / indexExpand / expandView': 'index::shape_expand, index::expand, view::expand',
-    '(no Lean model; IMPL vs NumPy only)': 'view::arange, linspace, full, zeros, ones, full_like, zeros_like, ones_like',
+    'NmVerif.Index.arangeLen / arangeLenF32 / arangeElem / arangeGen': 'index::arange_shape (+ ceil_), view::arange_t::operator()',
+    'NmVerif.Index.linspaceDiv / linspaceElem / linspaceGen': 'index::linspace_step, index::linspace_shape, view::linspace_t::operator()',
+    'NmVerif.Index.fullGen / zerosGen / onesGen / fullLikeGen / zerosLikeGen / onesLikeGen': 'view::full, zeros, ones, full_like, zeros_like, ones_like',
 }
 MANIFEST = dict(
     text=('Proof: Lean theorems X_shape / X_elem / X_inBounds (all ranks, extents and arguments, positive extents as guard) about a hand-written '
           'model of the index functions of tile, repeat (scalar / per-element / axis None, every accepted axis incl. negative), roll (any shift, one axis / '
           'several axes incl. repeated ones = summed shifts / None), pad, take (negative and repeated entries, negative axes, None), concatenate, resize, '
-          'compress, tril/triu, diagflat, tri/eye/identity, the stack family (through concatenate + flat-order preservation of reshape); one-axis / '
-          'cases of expand; split into equal sections and at cut-point lists (incl. the partition of the axis); sliding_window with scalar / list windows over axis / axis lists (repeats accumulate) / None; diagonal for every rank, accepted axis pair (incl. negative) and offset. The model is tied to the '
+          'compress, where (over the C06 model of broadcast_arrays: Nothing iff incompatible, shape = broadcast, element rule), tril/triu, diagflat, tri/eye/identity, full/zeros/ones(_like), arange (count = NumPy\'s for either step sign inside the binary32-exact range, element k = start + k*step), linspace (which rational each sample is), the stack family (through concatenate + flat-order preservation of reshape), '
+          'expand (one axis and any axis list incl. repeats, per-axis spacings); split into equal sections and at cut-point lists (incl. the partition of the axis); sliding_window with scalar / list windows over axis / axis lists (repeats accumulate) / None; diagonal for every rank, accepted axis pair (incl. negative) and offset. The model is tied to the '
           'C++ by a differential run of every view over an exhaustive small scope on every check and cross-checked against NumPy / the documented '
           'definitions. The defects found on the original tree (negative axis in repeat / take / concatenate / stack / compress, negative take '
           'entries, repeated roll axes, diagonal with negative or too large offset, split cut points beyond the extent, arange negative count / negative '
-          'integer step with real dtype, linspace num=1) are repaired in /repo; model and theorems follow the repaired code and the regression inputs stay in the generators.'),
+          'integer step with real dtype, linspace num=1) are repaired in /repo; model and theorems follow the repaired code and the regression inputs stay in the generators. '
+          'Open finding: arange counts its elements in binary32 (known finding arange.float32-length, theorem arange_len_f32_counterexample, repair proposed in fixes/C04-arange.float32-length.diff).'),
     note=('Lean kernel + propext/Classical.choice/Quot.sound; model hand-written, fidelity rests on the correspondence run (IMPL = MODEL on every '
-          'generated request); arange / linspace / full / zeros / ones(_like) have no Lean model and are checked against NumPy only (real grids with '
-          'relative tolerance 1e-6); statements listed in partial_statements are not claimed in full.'),
+          'generated request); for arange / linspace with real elements the theorems fix the rational expression of each element, its binary32 / binary64 value is the '
+          'harness\'s and is compared with relative tolerance 1e-6; statements listed in partial_statements are not claimed in full.'),
     technique='Lean 4 induction proofs over List Nat shapes + differential correspondence (exhaustive small scope) + NumPy oracle')
 ASSUMPTIONS = [
     'machine width: model arithmetic is unbounded Nat/Int; a negative C++ int stored into size_t is modelled as 2^64 + v (u64/i2u), loop counters and ranks are far below 2^63',
     'resize: the float(...) round trip applied after the integer division in index::resize is exact below 2^24 (extents of the scope are far smaller)',
     'ndarray element access: data_.at(offset) with offset computed in size_t; an index outside the shape whose offset stays below the size is read silently (the harness prints what was read, `oob` when vector::at throws)',
     'split parts go through view::slice; the model uses stop-start extents with cut points clamped to the extent (C05 covers the slice arithmetic)',
-    'where: the broadcast rule is the simple right-aligned one (C06 proves the C++ broadcast_to equals it)',
+    'arange quotient: for |stop - start|*sd < 2^24 and |step numerator| < 2^24 both conversions to binary32 are exact and the correctly rounded quotient float(stop - start) / step has the same sign and the same ceiling as the exact quotient (a non-integral quotient p/q with p, q < 2^24 is at least 1/q > ulp/2 away from every integer); the model computes the count from the exact quotient there and carries the binary32 computation out literally (f32Round) outside; checked by the correspondence run on every request, by a decide-checked grid in Props/C04Gen.lean and by an exhaustive C++ loop over all differences < 2^24 for 200 steps',
+    'arange / linspace elements: T(start) + T(k)*step is an exact expression in the model; the harness value is compared within 1e-6 relative to the magnitude of start / stop',
+    'where: the broadcast of the three operands is C06\'s model of broadcast_arrays (index::broadcast_shape fold + view::broadcast_to per operand)',
 ]
 PARTIAL = [
-    'expand_*: proved for one axis (any accepted sign); several axes / per-axis spacings under correspondence only',
     'sliding_window*: stated on the no-wrap domain (windows >= 1, total trim of an axis <= its extent; NumPy additionally refuses a trimmed extent 0); beyond it the C++ wraps in size_t (huge extent) while the model truncates at 0 — not generated, not claimed',
     'sliding_window: scalar window with axis None is NumPy-defined for rank 1 only (slidingWindowScalarNone_rank1); for higher ranks the C++ accepts the call (every axis shrinks, one window axis added to axis 0) — no reference, model mirrors it, not generated',
     'splitIdx_*: cut points >= 0 (a negative cut point wraps to a huge size_t in the C++ and means from-the-end in NumPy: outside the domain); splitIdx_partition additionally needs sorted cut points',
-    'where, arange, linspace, full/zeros/ones(_like): no theorem (where: plumbing over broadcast, C06/C07; generators: IMPL vs NumPy only)',
+    'arange_len / arange_shape_elem: stated on the binary32-exact range |stop - start|*sd < 2^24, |step numerator| < 2^24 (outside it the code is wrong: known finding arange.float32-length); real start / stop do not instantiate in nmtools',
+    'linspace_*: start / stop on the quarter grid (exactly representable); the theorems fix the rational expression, not the rounded floating value',
     'per-element repeats with axis None: does not instantiate in nmtools (shape_repeat multiplies the product by the repeats list); not runnable, not claimed',
 ]
 KNOWN_PREDICATES = {}
@@ -70,11 +79,14 @@ KNOWN_PREDICATES = {}
 H_A = 'h_c04a'
 # tier B routines with a Lean model (lean/NmVerif/Index/{Stack,Split,SlidingWindow,Diagonal,Where,Compress,Resize,Expand}.lean)
 MODELLED_BC = {'stack', 'hstack', 'vstack', 'dstack', 'column_stack', 'split', 'sliding_window', 'diagonal', 'diagflat',
-               'tril', 'triu', 'tri', 'eye', 'identity', 'where', 'compress', 'resize', 'expand'}
+               'tril', 'triu', 'tri', 'eye', 'identity', 'where', 'compress', 'resize', 'expand',
+               # tier C generators (lean/NmVerif/Index/Generators.lean); real-valued elements are printed as fractions by
+               # the model and compared with the relative tolerance of c04_bc.cmp_real
+               'arange', 'linspace', 'full', 'zeros', 'ones', 'full_like', 'zeros_like', 'ones_like'}
 
 
 def harness_specs(tier):
-    return [dict(name=H_A, src='h_c04a.cpp', flavour='fast')] + c04_bc.harness_specs_bc(tier)
+    return [dict(name=H_A, src='h_c04a.cpp', flavour='fast')] + c04_bc.harness_specs_bc(tier) + c04_gen.harness_specs_gen(tier)
 
 
 def iota(s, base=0):
@@ -299,6 +311,7 @@ def gen_large(tier, rng):
                    oracle=ans(np.concatenate([a, iota(s2, 1000)], axis=ax)), tags=['concatenate'] + tg)
 
 KNOWN_PREDICATES.update(c04_bc.KNOWN_PREDICATES_BC)
+KNOWN_PREDICATES.update(c04_gen.KNOWN_PREDICATES_GEN)
 
 
 def gen(tier, rng):
@@ -314,3 +327,4 @@ def gen(tier, rng):
             # the Lean model answers these too
             c.model = True
         yield c
+    yield from c04_gen.gen_more(tier, rng)
